@@ -424,6 +424,7 @@ async def fake_run_test_task(self, node):
             env.world.add(wid, (suffix, variant, state))
     env.ev("end", w=wid, name=rec["name"], ident=rec["ident"], uid=rec["uid"], status=status, dur=d, seq=seq,
            forced=forced is not None)
+    env.snapshots.append(env.world.snapshot())
     if status != "NORESULT":
         tid = type("TID", (), {"uid": rec["uid"], "name": rec["name"]})()
         self.job.result.tests.append({"name": tid, "status": status, "time_elapsed": str(d), "logdir": "."})
@@ -523,6 +524,7 @@ def execute(scn: Scenario, prefix=(), want_snapshots=False, keep_graph=False) ->
         finally:
             asyncio.set_event_loop(None)
     x.choices, x.points, x.trace = ch.choices, ch.points, env.trace
+    x.snapshots = env.snapshots
     x.steps, x.vtime = loop.steps, round(loop.time() / P, 3)
     # final facts about the graph
     nodes = []
